@@ -15,7 +15,7 @@ def get_zone_master_key(*key_parts: str) -> (str, str):
     """
     p1 = '00' * 16
     for key_part in key_parts:
-        p1 = f'{int(p1, 16) ^ int(key_part, 16):032x}'
+        p1 = f'{int(p1, 16) ^ int(key_part, 16):0{max(len(p1), len(key_part))}x}'
     binary_key = unhexlify(p1)
     kcv = calculate_kcv(binary_key)
 
